@@ -8,6 +8,9 @@
    (Emit_Amounts); the driver `c09_driver` evaluates every public constructor / parser / conversion /
    operator of value.rs on every lattice tuple and on VERIF_SEED-seeded random tuples (each call under
    catch_unwind) and logs operands and outcome.
+   Long sums (`*.sum_rep`, `*.isum_rep`, `*.isum_ref_rep`, `*.rep_then`: an iterator of up to 20 000 equal
+   summands, logged compactly as amount + number of copies) carry the exact total past i64::MAX and
+   u64::MAX; the run is vacuous unless every such operation was evaluated beyond both machine words.
 3. TLC validates every record against Amounts!Spec evaluated over DecInt at the real constants
    (Trace_Amounts): the outcome must be exactly the specified one (error values by class).
 """
@@ -20,6 +23,9 @@ from . import lib
 AREA = "Amounts"
 MODULES = ["DecInt", "MC_DecInt", "Amounts", "MC_Amounts", "RealAmounts", "Emit_Amounts", "Trace_Amounts"]
 I64MIN, I64MAX, U64MAX, MAXM = -(1 << 63), (1 << 63) - 1, (1 << 64) - 1, 2100000000000000
+REPMAX = 20000          # longest long sum (RealAmounts!RREPMAX, compared in emit_lattice)
+MIN_BEYOND_WORD = 10    # vacuity guard: long-sum cases per operation and machine-word boundary
+MIN_WRAP_TARGETS = 3    # ... of which the total reduced modulo 2^64 is a valid amount (the lattice alone has 3 / 6)
 MAX_REPORTED = 3
 NUMERAL = re.compile(r"^(0|-?[1-9][0-9]*)$")
 
@@ -73,7 +79,8 @@ def emit_lattice(ctx, d):
     if not (sigs and lat and consts):
         raise lib.ToolError("Emit_Amounts printed no operation table / lattice")
     c = consts[0]
-    if (int(c["maxm"]), int(c["i64max"]), int(c["i64min"]), int(c["u64max"])) != (MAXM, I64MAX, I64MIN, U64MAX):
+    if (int(c["maxm"]), int(c["i64max"]), int(c["i64min"]), int(c["u64max"]), int(c["repmax"])) \
+            != (MAXM, I64MAX, I64MIN, U64MAX, REPMAX):
         raise lib.ToolError("constants of RealAmounts differ from those assumed by the input validation")
     spec = {"sigs": sigs[0], "lat": lat[0]}
     path = ctx.path("lattice.json")
@@ -109,7 +116,7 @@ def in_type(t, s):
     v = int(s)
     return {"i64": I64MIN <= v <= I64MAX, "u64": 0 <= v <= U64MAX, "mul": 0 <= v <= U64MAX,
             "pat": 0 <= v <= U64MAX, "nz64": 1 <= v <= U64MAX, "Z": 0 <= v <= MAXM, "oZ": 0 <= v <= MAXM,
-            "B": -MAXM <= v <= MAXM, "oB": -MAXM <= v <= MAXM}[t]
+            "B": -MAXM <= v <= MAXM, "oB": -MAXM <= v <= MAXM, "rep": 0 <= v <= REPMAX}[t]
 
 
 def validate_inputs(spec, recs):
@@ -148,6 +155,44 @@ def check_completeness(spec, summary, n_random):
                                 % (op, got, want))
 
 
+def check_long_sums(spec, recs):
+    """Vacuity guard for the long sums: for every operation with a "rep" argument the trace must contain
+    cases whose exact total of the equal summands (copies * amount -- a classification of the *inputs*, no
+    outcome is looked at) lies beyond i64::MAX and beyond u64::MAX; for signed amounts in both directions."""
+    counts = {}
+    for op, ent in spec["sigs"].items():
+        if "rep" not in ent["sig"]:
+            continue
+        if ent["sig"][:2] not in (["Z", "rep"], ["B", "rep"]):
+            raise lib.ToolError("long-sum operation %s has an unexpected signature %s" % (op, ent["sig"]))
+        c = {"total>i64max": 0, "total>u64max": 0, "wraps_into_range": 0}
+        if ent["sig"][0] == "B":
+            c.update({"total<i64min": 0, "total<-u64max": 0})
+        counts[op] = c
+    for e in recs:
+        c = counts.get(e["op"])
+        if c is None:
+            continue
+        t = int(e["a"][0]) * int(e["a"][1])
+        c["total>i64max"] += t > I64MAX
+        c["total>u64max"] += t > U64MAX
+        if "total<i64min" in c:
+            c["total<i64min"] += t < I64MIN
+            c["total<-u64max"] += t < -U64MAX
+        w = t % (1 << 64)
+        c["wraps_into_range"] += (t > U64MAX or t < I64MIN or (t > I64MAX and "total<i64min" in c)) \
+            and (w <= MAXM or ("total<i64min" in c and (1 << 64) - w <= MAXM))
+    for op, c in counts.items():
+        for k, n in c.items():
+            need = MIN_WRAP_TARGETS if k == "wraps_into_range" else MIN_BEYOND_WORD
+            if n < need:
+                raise lib.ToolError("vacuity: long sum %s evaluated on %d cases with %s, at least %d are required"
+                                    % (op, n, k, need))
+    if not counts:
+        raise lib.ToolError("vacuity: the specification has no long-sum operation")
+    return counts
+
+
 def outcome_class(e):
     r = e["r"][0]
     return "val" if NUMERAL.match(r) else r.split(":")[0]
@@ -158,7 +203,7 @@ def check_classes(spec, recs, strict=True):
     for e in recs:
         classes.setdefault(e["op"], set()).add(outcome_class(e))
     for op, ent in spec["sigs"].items():
-        if strict and ent["mode"] in ("opt", "res", "assert", "io", "lift", "fold", "readn") \
+        if strict and ent["mode"] in ("opt", "res", "assert", "io", "lift", "fold", "readn", "foldrep") \
                 and len(classes.get(op, ())) < 2:
             raise lib.ToolError("vacuity: fallible operation %s showed only outcomes %s" % (op, classes.get(op)))
     return classes
@@ -242,8 +287,10 @@ def run(ctx):
         raise lib.ToolError("driver trace is incomplete")
     recs = recs[:-1]
     validate_inputs(spec, recs)
+    long_sums = None
     if summary["skipped"] == 0:
         check_completeness(spec, summary, n_random)
+        long_sums = check_long_sums(spec, recs)
     else:
         lib.log("note: %d calls skipped because an in-range operand could not be constructed" % summary["skipped"])
     accepted = judge(ctx, d, recs, "run")
@@ -263,7 +310,9 @@ def run(ctx):
         if not ok:
             lib.log("note (not part of the property): error kind differs from the convention: %s" % detail[:300])
     ctx.traces = accepted
-    for op in ("Z.add", "B.from_i64_le_bytes", "Z.mul_u64", "B.isum", "Z.div_with_remainder", "Z.const_from_u64"):
+    if long_sums is not None:
+        ctx.extra["long_sum_cases_beyond_machine_word"] = long_sums
+    for op in ("Z.add", "B.from_i64_le_bytes", "Z.mul_u64", "B.isum", "Z.isum_rep", "Z.const_from_u64"):
         for e in recs:
             if e["op"] == op and outcome_class(e) != "val":
                 ctx.add_sample({k: e[k] for k in ("op", "a", "r")})
@@ -290,8 +339,11 @@ def run(ctx):
                      "error values are compared by class (Err vs Ok), the kind only informationally (thorough tier)",
                      "iterator sums are specified as the left fold of the checked addition: a running sum leaving the "
                      "range yields None even if the total would be in range",
+                     "long iterator sums are driven as up to %d equal summands (optionally followed by one more): "
+                     "Some(copies * amount) iff that exact total is a valid amount, None otherwise, also when the total "
+                     "exceeds i64::MAX / u64::MAX; sums of many *different* large summands are not driven" % REPMAX,
                      "amount operands are built with from_u64 / from_i64 and observed with into_u64 / i64::from",
-                     "ZatBalance(0) * (usize > i64::MAX) = None is tolerated and printed as KNOWN-FINDING"])
+                     "ZatBalance(0) * (usize > i64::MAX) = None was repaired in /repo (known_findings.json: fixed); the specification no longer tolerates it"])
 
 
 def replay(ctx, path):
@@ -361,6 +413,20 @@ def selftest(ctx):
         ("decoder accepts out-of-range", first(lambda e: e["op"] == "Z.from_nonnegative_i64_le_bytes"
                                                and outcome_class(e) == "err"),
          lambda e: dict(e, r=["0"])),
+        ("long sum: none -> total wrapped modulo 2^64",
+         first(lambda e: e["op"] == "Z.isum_rep" and e["r"] == ["none"]
+               and int(e["a"][0]) * int(e["a"][1]) > U64MAX and (int(e["a"][0]) * int(e["a"][1])) % (1 << 64) <= MAXM),
+         lambda e: dict(e, r=[str((int(e["a"][0]) * int(e["a"][1])) % (1 << 64))])),
+        ("long sum: none -> panic", first(lambda e: e["op"] == "B.isum_ref_rep" and e["r"] == ["none"]
+                                           and abs(int(e["a"][0]) * int(e["a"][1])) > I64MAX),
+         lambda e: dict(e, r=["panic"])),
+        ("long sum: value -> none", first(lambda e: e["op"] == "B.sum_rep" and outcome_class(e) == "val"
+                                           and int(e["a"][1]) >= 4392),
+         lambda e: dict(e, r=["none"])),
+        ("long sum then one more: none -> total wrapped modulo 2^64",
+         first(lambda e: e["op"] == "B.isum_rep_then" and e["r"] == ["none"] and e["a"][:2] == [str(MAXM), "8785"]
+               and e["a"][2] == "1"),
+         lambda e: dict(e, r=[str((MAXM * 8785 + 1) % (1 << 64))])),
         ("sum wrong", first(lambda e: e["op"] == "B.isum" and outcome_class(e) == "val" and len(e["a"]) == 3),
          lambda e: dict(e, r=[bump(e["r"][0])])),
     ]
